@@ -133,6 +133,30 @@ def evaluate(oracle, node, tower, case, ctx):
         if is_err(y):
             return False, {"error": repr(y)}
         return R.close(y, x @ M, np.abs(x) @ Bd, np.result_type(ref.dtype, x.dtype), eps=eps(x, y))
+    if oracle == "after-every-width":
+        # hostile history on one operator object: products from both sides with operands of *every* width first (whatever the
+        # object keeps between calls - a workspace keyed by shape, a cached transpose - must not leak into the next product), then
+        # left and right products judged against the reference
+        W_ = max(m, n) + 2
+        dtx = P.DT[xdt]
+        for w in range(1, W_ + 1):
+            r1 = ctx.call(lambda: T @ np.ones((n, w), dtype=dtx))
+            r2 = ctx.call(lambda: np.ones((w, m), dtype=dtx) @ T)
+            if is_err(r1) or is_err(r2):
+                return True, None  # (judged by the plain product oracles)
+        out = {}
+        for w in sorted({1, min(m, n), m, n}):
+            x = P.operand(case["xseed"] + 3 * w, (n, w), xdt)
+            xl = P.operand(case["xseed"] + 3 * w + 1, (w, m), xdt)
+            yl = ctx.call(lambda: xl @ T)
+            y = ctx.call(lambda: T @ x)
+            if is_err(y) or is_err(yl):
+                return False, {"error": repr(y if is_err(y) else yl), "width": w}
+            ok1, d1 = R.close(yl, xl @ M, np.abs(xl) @ Bd, np.result_type(ref.dtype, xl.dtype), eps=eps(xl, yl))
+            ok2, d2 = R.close(y, M @ x, Bd @ np.abs(x), np.result_type(ref.dtype, x.dtype), eps=eps(x, y))
+            if not (ok1 and ok2):
+                return False, {"width": w, "left": d1, "right": d2}
+        return True, None
     if oracle == "involution":  # tower in ("TT", "HH"): represents A again (matrix, shape, dtype, annotations)
         D = ctx.call(T.to_dense)
         if is_err(D):
@@ -149,7 +173,7 @@ def evaluate(oracle, node, tower, case, ctx):
     raise ValueError(oracle)
 
 
-VALUE = ("dense", "right", "left-vec", "left-mat", "involution")
+VALUE = ("dense", "right", "left-vec", "left-mat", "involution", "after-every-width")
 
 
 def run_case(ctx, case):
@@ -168,9 +192,11 @@ def run_case(ctx, case):
         ctx.count("tower", tw)
         jobs += [(tw, o) for o in ("shape", "dtype", "dense", "right", "left-vec", "left-mat")]
     jobs += [("TT", "involution"), ("HH", "involution")]
+    if R.shape_of(node)[0] <= 8 and R.shape_of(node)[1] <= 8:
+        jobs += [("", "after-every-width"), (case["towers"][0], "after-every-width")]
     for tower, oracle in jobs:
         ok, detail = evaluate(oracle, node, tower, case, ctx)
-        name = oracle if oracle in ("involution", ) else ("left-product" if oracle.startswith("left") and tower == ""
+        name = oracle if oracle in ("involution", "after-every-width") else ("left-product" if oracle.startswith("left") and tower == ""
                                                           else f"tower-{oracle}")
         if ok:
             ctx.check(name, True)
